@@ -359,7 +359,7 @@ fn check_empty_solicited(r: &Response, seq: Sequence) {
 // @timeout 900
 // @mem 4
 // @units OutstationSession::{handle_delay_measure, handle_record_current_time, handle_restart}, HeaderWriter::write_count_of_one, Response::empty_solicited
-// @bounds any request sequence, any application processing delay, restart answer none/seconds/milliseconds with any u16: the response carries the request's sequence, UNS clear, FIR and FIN, no CON; objects are exactly g52v2 (delay measure: the application's delay), g52v1/g52v2 (restart) and re-parse; unsupported restart => NO_FUNC_CODE_SUPPORT; RECORD_CURRENT_TIME records the clock reading
+// @bounds any request sequence, any application processing delay, restart answer none/seconds/milliseconds with any u16: the response carries the request's sequence, UNS clear, FIR and FIN, no CON; objects are exactly g52v2 (delay measure: the application's delay), g52v1/g52v2 (restart) and re-parse; unsupported restart => NO_FUNC_CODE_SUPPORT; RECORD_CURRENT_TIME records the clock reading, replacing any earlier unconsumed record
 // @stubs tokio::time::Instant::now -> harness clock
 #[kani::proof]
 #[kani::unwind(8)]
@@ -384,6 +384,10 @@ fn c12_time_and_restart_responses() {
             assert!(u16::from_le_bytes([objs[4], objs[5]]) == delay);
         }
         1 => {
+            // an earlier RECORD_CURRENT_TIME may have gone unanswered (lost reply, broadcast): the newest one counts
+            if kani::any() {
+                s.state.last_recorded_time = Some(any_instant());
+            }
             let now = set_now_any();
             let r = s.handle_record_current_time(seq);
             check_empty_solicited(&r, seq);
@@ -790,4 +794,39 @@ fn c12_write_rejected_then_accepted() {
     kani::cover!(true);
     std::mem::forget(s);
     std::mem::forget(db);
+}
+
+// @harness c12_session_sizes_from_config
+// @props C12
+// @tier quick
+// @timeout 600
+// @mem 4
+// @units impl From<OutstationConfig> for SessionParameters, impl From<OutstationConfig> for SessionConfig, BufferSize::{new, value}
+// @bounds any solicited and unsolicited transmit size 249..=2048, any read-header limit, any confirm/select time-outs and retry settings: the session's solicited buffer is sized from the SOLICITED setting and the unsolicited one from the UNSOLICITED setting (a response is cut to the buffer it is written into, so crossing them lets a fragment exceed the configured size), every other parameter arrives unchanged
+#[kani::proof]
+#[kani::unwind(4)]
+fn c12_session_sizes_from_config() {
+    let mut config = OutstationConfig::new(EndpointAddress::raw(10), EndpointAddress::raw(1), EventBufferConfig::all_types(1));
+    let a: usize = kani::any();
+    let b: usize = kani::any();
+    kani::assume(a >= 249 && a <= 2048 && b >= 249 && b <= 2048);
+    config.solicited_buffer_size = crate::app::BufferSize::new(a).unwrap();
+    config.unsolicited_buffer_size = crate::app::BufferSize::new(b).unwrap();
+    let lim: u16 = kani::any();
+    let has_lim: bool = kani::any();
+    config.max_read_request_headers = if has_lim { Some(lim) } else { None };
+    let ct = crate::app::verif_retry::any_duration_ms(3_600_000);
+    let st = crate::app::verif_retry::any_duration_ms(3_600_000);
+    config.confirm_timeout = crate::app::Timeout(ct);
+    config.select_timeout = crate::app::Timeout(st);
+    let mc: u16 = kani::any();
+    config.max_controls_per_request = Some(mc);
+    let p: SessionParameters = config.into();
+    let c: SessionConfig = config.into();
+    assert!(p.sol_tx_buffer_size.value() == a);
+    assert!(p.unsol_tx_buffer_size.value() == b);
+    assert!(p.max_read_headers_per_request == if has_lim { lim } else { OutstationConfig::DEFAULT_MAX_READ_REQUEST_HEADERS });
+    assert!(c.confirm_timeout == config.confirm_timeout && c.select_timeout == config.select_timeout);
+    assert!(c.max_controls_per_request == Some(mc));
+    kani::cover!(a < b);
 }
